@@ -28,7 +28,7 @@ import (
 // crashWorld builds the deterministic machine + workload of a crash case.
 func crashWorld(seed uint64) (*world, amhist.BaseConfig, int32) {
 	r := gen.NewRand(seed, 29)
-	w := newWorld(r, "c17crash")
+	w := newWorldAuto(r, "c17crash", 0)
 	cfg := genCfg(r, "plain", w.spec.Names)
 	cfg.MaxRecords = 0
 	cfg.TrackRejected = false
@@ -56,40 +56,33 @@ func crashChildMain(args []string) {
 		w.run(i, i+1)
 		// paced: one write in flight at most (several forked batch writes can
 		// commit out of order - the known resume-burst finding - which is not
-		// what this tier is about)
-		if !st.quiesce() {
-			fmt.Fprintln(out, "NOQUIESCE")
+		// what this tier is about). The pace is set by what a query shows: the
+		// backends' own saved counters move inside the write transaction,
+		// before it commits, and a read transaction only sees committed data.
+		want := int(st.mem.MachineRecord().NextId) - 1 - st.pending()
+		seen := -1
+		for k := 0; k < 3000; k++ {
+			if st.pending() > 0 {
+				// a partial batch stays in memory until Sync
+				if err := st.mem.Sync(); err != nil {
+					fmt.Fprintln(out, "SYNCERR", err)
+					out.Flush()
+					os.Exit(2)
+				}
+				want = int(st.mem.MachineRecord().NextId) - 1
+			}
+			if l, err := list(st.mem); err == nil && len(l) >= want {
+				seen = len(l)
+				break
+			}
+			time.Sleep(time.Millisecond)
+		}
+		if seen < 0 {
+			fmt.Fprintln(out, "NOTVISIBLE")
 			out.Flush()
 			os.Exit(2)
 		}
 		if i%3 == 2 {
-			if err := st.mem.Sync(); err != nil {
-				fmt.Fprintln(out, "SYNCERR", err)
-				out.Flush()
-				os.Exit(2)
-			}
-			if !st.quiesce() {
-				fmt.Fprintln(out, "NOQUIESCE")
-				out.Flush()
-				os.Exit(2)
-			}
-			// report what a query really shows (bbolt counts a record as saved
-			// inside the write transaction, before it commits): a read
-			// transaction only sees committed data
-			want := int(st.mem.MachineRecord().NextId) - 1
-			seen := -1
-			for k := 0; k < 2000; k++ {
-				if l, err := list(st.mem); err == nil && len(l) >= want {
-					seen = len(l)
-					break
-				}
-				time.Sleep(time.Millisecond)
-			}
-			if seen < 0 {
-				fmt.Fprintln(out, "NOTVISIBLE")
-				out.Flush()
-				os.Exit(2)
-			}
 			fmt.Fprintf(out, "SYNCED %d %d\n", i+1, seen)
 			out.Flush()
 		}
@@ -189,7 +182,8 @@ func runCrash(res *core.CaseResult, c core.CaseDesc, p caseP) {
 	n := len(got)
 	res.Evals++
 	if n < lastRecs {
-		res.Violate("C17/"+p.Backend+"/crash/lost-synced", fmt.Sprintf("%d records after the kill, %d had been synced and visible before it (%s)", n, lastRecs, ctxs), nil)
+		res.Violate("C17/"+p.Backend+"/crash/lost-synced", fmt.Sprintf("%d records after the kill, %d had been synced and visible before it (reopened NextId=%d; %s)", n, lastRecs,
+			st.mem.MachineRecord().NextId, ctxs), nil)
 		return
 	}
 	if n > len(refRecs) {
